@@ -120,7 +120,8 @@ class Link:
         r.inds.append((r.clock.now, self.idx, payload, len(r.ticks)))
 
 
-DUR = st.one_of(st.just(0), st.integers(0, 4000000), st.integers(4600000, 4630000), st.integers(4615000, 30000000))
+DUR = st.one_of(st.just(0), st.integers(0, 4000000), st.integers(4600000, 4630000), st.integers(4615000, 30000000),
+                st.sampled_from([4614998, 4614999, 4615000, 4615001, 2 * 4614999, 2 * 4614999 + 1, 9229997, 3 * 4614999]))
 DUR_SHORT = st.one_of(st.just(0), st.integers(0, 4500000))
 
 
@@ -132,7 +133,9 @@ def case_st(draw):
             "period": draw(st.one_of(st.sampled_from([1, 51, 102, 102, 26, 300]), st.integers(1, 300))),
             "links": draw(st.integers(0, 3)),
             "cycles": draw(st.lists(st.one_of(st.integers(1, 40), st.integers(1, 400)), min_size=1, max_size=3)),
-            "durs": durs, "t0": draw(st.sampled_from([0, 1, 123456789012, 2 ** 62]))}
+            "durs": durs, "t0": draw(st.sampled_from([0, 1, 123456789012, 2 ** 53 + 1, 2 ** 62])),
+            # links attached / detached between stop() and the next start()
+            "link_changes": draw(st.lists(st.integers(0, 3), max_size=3))}
 
 
 def oracle(case):
@@ -143,7 +146,12 @@ def oracle(case):
     gen = clck_gen.CLCKGen(links, clck_start=case["start"], ind_period=case["period"])
     overrun_then_regular = wrap = False
     n_inds = 0
+    n_links = case["links"]
     for cyc in range(len(case["cycles"])):
+        if cyc > 0 and cyc - 1 < len(case.get("link_changes", [])):
+            n_links = case["link_changes"][cyc - 1]
+            del links[:]
+            links.extend(Link(run_ref, i) for i in range(n_links))
         r = Run(case, cyc)
         run_ref[0] = r
         r.install(gen)
@@ -194,7 +202,7 @@ def oracle(case):
         exp_inds = []
         for k, (fn, t) in enumerate(r.ticks):
             if fn % case["period"] == 0:
-                for li in range(case["links"]):
+                for li in range(n_links):
                     exp_inds.append((t, li, "IND CLOCK %d\0" % fn, k))
         got = [(t, li, p if isinstance(p, str) else p.decode("ascii", "replace"), k) for (t, li, p, k) in r.inds]
         if sorted(got) != sorted(exp_inds):
@@ -224,6 +232,7 @@ def long_runs(ctx, rec):
              {"start": H - 30000, "period": 51, "links": 1, "cycles": [66000], "durs": [1000, 4000000, 0, 5000000, 100], "t0": 2 ** 40}]
     if ctx.tier == "thorough":
         cases.append({"start": 0, "period": 300, "links": 3, "cycles": [300000, 5], "durs": [4614000, 0, 4616000], "t0": 123})
+        cases.append({"start": 5, "period": 102, "links": 1, "cycles": [1200000], "durs": [0, 10], "t0": 2 ** 53})
     for c in cases:
         try:
             cl, nt, _ = oracle(c)
